@@ -198,11 +198,13 @@ def run(ck):
     ck.tlc('PathD', mc, need_actions=['AddSeg'], timeout=3000)
     traces, tmeta = [], []
     state = {'n': 0}
-    every = 1 if quick else 6       # thorough: float concretisations / traces on every 6th path of the 390k
+    every = 1 if quick else 12      # thorough: float concretisations / traces on every 12th path of the 390k; integer round trips on every 3rd
 
     def on_case(c):
         abstract = c['path']
         state['n'] += 1
+        if not quick and len(abstract) >= 3 and state['n'] % 3:
+            return
         full = (state['n'] % every == 0) or len(abstract) <= 2
         p = pm.mkpath(abstract)
         nontriv = len(abstract) >= 2
